@@ -3,7 +3,7 @@
    Statements only.  Raw XML abstraction, XmlOK, canonical writer: Tablexml.v; names: Names.v. *)
 From Coq Require Import List ZArith NArith Lia Bool Arith.
 Import ListNotations.
-Require Import Vault Vaultproof Row Table Grid Tableabs Tablexml Tablexmlproof Tableproof6 Names Namesproof Namesproof2 Names2 Names2proof TableLive TableLiveproof Tablexml2 Tablexml2proof.
+Require Import Vault Vaultproof Row Table Grid Tableabs Tablexml Tablexmlproof Tableproof6 Names Namesproof Namesproof2 Names2 Names2proof TableLive TableLiveproof Tablexml2 Tablexml2proof Transform TableXf TableXfproof.
 Open Scope Z_scope.
 
 (* ---- full statement (structural part): from any well-formed state whose rows fit the declared columns, after any
@@ -128,3 +128,17 @@ Theorem C07_named_range_rule_from_source : forall (sp : list N) (charrej firstre
   forall s : str, nr_rule_ok sp charrej firstrej shapes s = lo_range_name_ok sp s.
 Proof. exact nr_rule_equiv. Qed.
 Print Assumptions C07_named_range_rule_from_source.
+
+(* ---- whole-table transformations as history steps (round 4; model of C17, Transform.v, same state type): rstrip(aggressive)
+        and transpose() keep well-formedness and "rows fit the declared columns", hence XmlOK of the XML written.
+        optimize_width(): well-formedness is C17_optimize_width_removes_only_trailing_empties; that its rows fit the
+        columns is not proved — XmlOK and "reported size = sums of the repeats" are evaluated on the implementation's
+        XML after every such step by the correspondence (family "xf"), as after every other step. ---- *)
+Theorem C07_rstrip_keeps_xml_valid : forall (a : calg) (aggr : bool) (t : tstate), WF t -> fits t = true ->
+  WF (t_rstrip a aggr t) /\ fits (t_rstrip a aggr t) = true /\ XmlOK (render (t_rstrip a aggr t)) = true.
+Proof. exact rstrip_keeps_xmlok. Qed.
+Print Assumptions C07_rstrip_keeps_xml_valid.
+Theorem C07_transpose_keeps_xml_valid : forall t : tstate, WF t ->
+  WF (t_transpose t) /\ fits (t_transpose t) = true /\ XmlOK (render (t_transpose t)) = true.
+Proof. exact transpose_keeps_xmlok. Qed.
+Print Assumptions C07_transpose_keeps_xml_valid.
